@@ -274,6 +274,11 @@ def _grid(R, rng, ctx):
                                  common_subexpression_elimination=rng.random() < 0.5)
         grid = {"config": [cfg(iv[0])] if mode == "config1" else [cfg(iv[0]), cfg(iv[1])]}
     _grid_once(R, rng, defn, b, grid, X, reverse=False)
+    if mode in ("fields", "single"):
+        # a second fit in the same process whose grid mentions fewer hyper-parameters than the first
+        iv2 = [None, rng.choice([0.25, 0.5, 1.5])]
+        _grid_once(R, rng, defn, b, {"innovation_filtering": iv2}, X, reverse=False)
+        R.stats.inc("second_fit_with_smaller_grid")
     if ctx.get("_unit_i", 0) % 2 == 0:
         # same grid with every value list reversed: selection is by score, so for at least one of the
         # two orders the selected value is not the first element of its list
@@ -348,6 +353,20 @@ def _grid_once(R, rng, defn, b, grid, X, reverse):
     # the exported filter carries the selected hyper-parameters; where the grid offered a single value,
     # that value is the selected one whether or not the search lists it
     selected = fields_of({k: (best[k] if k in best else grid[k][0]) for k in grid if k in best or len(grid[k]) == 1})
+    # hyper-parameters the grid does not mention are the library defaults, whatever was fitted before in
+    # this process
+    if "config" not in grid:
+        import dataclasses as _dc
+        from formak import python as _py
+
+        for k, dv in _dc.asdict(_py.Config()).items():
+            if k in selected or k == "python_modules":
+                continue
+            R.stats.inc("exported_unspecified_fields_checked")
+            got = getattr(exported.config, k)
+            if not (got is dv or got == dv):
+                R.add([K.V("grid:unspecified-field-not-default",
+                           f"exported filter has {k}={got!r}; the grid does not mention {k} and the library default is {dv!r}", **w)])
     for k, v in selected.items():
         R.stats.inc("exported_config_fields_checked")
         got = getattr(exported.config, k)
